@@ -1,1 +1,7 @@
-pub fn hi(){}
+//! Pure model code (no darling dependency): declaration and input IRs, printers, the
+//! reference interpreter, corpus enumerations.
+pub mod corpus;
+pub mod input;
+pub mod interp;
+pub mod ir;
+pub mod print;
